@@ -51,3 +51,18 @@ VARIANTS = [
              (L, '\tif l.N <= 0 {', '\tif l.written >= l.N {'),
              (L, '\tl.N -= int64(n)\n', '\tl.written += int64(n)\n')]),
 ]
+
+# the error mapping moved into an unexported helper the failing branch returns through
+MAP_OLD = '\n\t\tif len(stderr) == 0 {\n\t\t\t// if stderr is empty, it is possible that the plugin is not\n\t\t\t// running properly.\n\t\t\tlogger.Errorf("failed to execute the %s command for plugin %s: %s", req.Command(), pluginName, err)\n\t\t\treturn &PluginExecutableFileError{\n\t\t\t\tInnerError: err,\n\t\t\t}\n\t\t} else {\n\t\t\tvar re proto.RequestError\n\t\t\tjsonErr := json.Unmarshal(stderr, &re)\n\t\t\tif jsonErr != nil {\n\t\t\t\tlogger.Errorf("failed to execute the %s command for plugin %s: %s", req.Command(), pluginName, strings.TrimSuffix(string(stderr), "\\n"))\n\t\t\t\treturn &PluginMalformedError{\n\t\t\t\t\tInnerError: jsonErr,\n\t\t\t\t}\n\t\t\t}\n\t\t\tlogger.Errorf("failed to execute the %s command for plugin %s: %s: %w", req.Command(), pluginName, re.Code, re)\n\t\t\treturn re\n\t\t}\n'
+MAP_CALL = '\t\treturn executionError(logger, pluginName, req.Command(), stderr, err)\n'
+def map_helper(cond='len(stderr) == 0', ret='re'):
+    return ('func executionError(logger log.Logger, pluginName string, command plugin.Command, stderr []byte, execErr error) error {\n'
+            '\tif ' + cond + ' {\n\t\tlogger.Errorf("failed to execute the %s command for plugin %s: %s", command, pluginName, execErr)\n\t\treturn &PluginExecutableFileError{InnerError: execErr}\n\t}\n'
+            '\tvar re proto.RequestError\n\tif jsonErr := json.Unmarshal(stderr, &re); jsonErr != nil {\n\t\tlogger.Errorf("failed to execute the %s command for plugin %s: %s", command, pluginName, strings.TrimSuffix(string(stderr), "\\n"))\n\t\treturn &PluginMalformedError{InnerError: jsonErr}\n\t}\n'
+            '\treturn ' + ret + '\n}\n\n// commander is defined for mocking purposes.')
+MAP_HOOK = '// commander is defined for mocking purposes.'
+VARIANTS += [
+ dict(name='benign-error-mapping-helper', file=P, expect='silent', find=MAP_OLD, replace=MAP_CALL, edits=[(P, MAP_HOOK, map_helper())]),
+ dict(name='error-mapping-helper-inverted-stderr-test', file=P, expect='flagged(runner/error-mapping/executable)', find=MAP_OLD, replace=MAP_CALL, edits=[(P, MAP_HOOK, map_helper(cond='len(stderr) != 0'))]),
+ dict(name='error-mapping-helper-drops-plugin-error', file=P, expect='flagged(runner/error-mapping/plugin-error)', find=MAP_OLD, replace=MAP_CALL, edits=[(P, MAP_HOOK, map_helper(ret='&PluginMalformedError{InnerError: execErr}'))]),
+]
